@@ -21,6 +21,8 @@ package capacity
 //@   attr effect:fs.rename
 //@ func upgradeMassDBFile$1
 //@   attr effect:fs.rename
+//@   assert-at call GetPublicKeyOrdinal ordinal-asked-for-the-key-in-the-old-file-name: arg1 == pubKey
+//@   assert-at call Sprintf new-name-carries-the-ordinal-the-wallet-gives-that-key: lastresult("GetPublicKeyOrdinal", 1) && unbox("uint32", arg1[0]) == lastresult("GetPublicKeyOrdinal", 0)
 
 // ---- loading at start-up (C11): a plot file is indexed only if its name parses, the wallet owns the key under that
 // ordinal, it is not indexed yet, and the opened DB carries the key and bit length of the name
